@@ -18,7 +18,7 @@ LEVEL = "exploration"
 RULE = ("messages of 0..3 blocks (thorough: up to 40) sent in alternating directions between two real SecsIProtocol "
         "endpoints over a simulated line with chunkings (whole, every byte, random cuts); one header/data/checksum byte "
         "flipped in flight at every position of a single-block and a two-block message (enumerated) and at random "
-        "positions otherwise; distinct by (direction, size, chunking, corruption position); all non-trivial; plus: 3-5 block messages over a slow line (pauses of 0.45-0.8 T4 between blocks, more than T4 in total); 2-3 threads of one endpoint sending 1-4 block messages at the same time, their blocks alternating on the line (one side transmitting, every block with its handshake)")
+        "positions otherwise; distinct by (direction, size, chunking, corruption position); all non-trivial; plus: 3-5 block messages over a slow line (pauses of 0.45-0.8 T4 between blocks, more than T4 in total); 2-3 threads of one endpoint sending 1-4 block messages at the same time, their blocks alternating on the line (one side transmitting, every block with its handshake); the very message of a transfer that failed at its second or a later block sent again (same system bytes)")
 ASSUMPTIONS = ["only one side transmits at a time (the harness serialises transfers, as the statement assumes)",
                "retries, T1/T2/T4 time-outs and ENQ contention are outside the statement",
                "a corrupted length byte may leave both ends waiting; there only 'success' and 'delivery' are forbidden"]
@@ -30,7 +30,7 @@ SHARDS = {"quick": 8, "thorough": 16}
 TIMEOUT = {"quick": 300, "thorough": 3000}
 FLOORS = {"transfer.clean.host_to_equipment": 50, "transfer.clean.equipment_to_host": 50, "transfer.corrupted": 20,
           "oracle.trace_blocks": 200, "enumerated.corruption_positions": 100,
-          "transfer.concurrent_senders_blocks_alternated": 8}
+          "transfer.concurrent_senders_blocks_alternated": 8, "transfer.same_message_again_after_a_NAK": 20}
 
 
 class Line:
@@ -106,7 +106,7 @@ def check_trace(trace):
     return blocks, None
 
 
-def _transfer(ctx, line, src, body_len, sf, wbit, corrupt=None, via="send_message"):
+def _transfer(ctx, line, src, body_len, sf, wbit, corrupt=None, via="send_message", reuse=None):
     """One message from `src` ('H' or 'E'); returns nothing, records violations."""
     import secsgem.secsi.header as SH
     import secsgem.secsi.message as SM
@@ -124,6 +124,11 @@ def _transfer(ctx, line, src, body_len, sf, wbit, corrupt=None, via="send_messag
         ctx.count("transfer.system_bytes_reused_after_a_completed_message")
     header = SH.SecsIHeader(system, rng.randint(0, 0x7FFF), sf[0], sf[1], 0, src == "E", wbit)
     msg = SM.SecsIMessage(header, body)
+    if reuse is not None:
+        # the very message of an earlier, failed transfer is sent again (same system bytes)
+        header, body, msg = reuse
+        system = header.system
+    line.last_message = (header, body, msg)
     nblocks = len(msg.blocks)
     line.reset()
     line.corrupt = corrupt
@@ -395,6 +400,12 @@ def run(ctx):
         if i < 2:
             ctx.sample({"direction": src, "body_len": body_len, "chunking": kind, "corrupt(block,offset,mask)": corrupt})
         res = _transfer(ctx, line, src, body_len, rng.choice(header_only), rng.random() < 0.5, corrupt=corrupt)
+        if res == "nak" and corrupt is not None and corrupt[0] >= 1 and rng.random() < 0.7:
+            # the sender gave up on a multi-block message after some of its blocks had been accepted; it sends the message again
+            ctx.count("transfer.same_message_again_after_a_NAK")
+            line.chunker = None
+            sf_again = (line.last_message[0].stream, line.last_message[0].function)
+            res = _transfer(ctx, line, src, body_len, sf_again, line.last_message[0].require_response, reuse=line.last_message)
         if injecting:
             sig, yields, _ = inj.end()
             sigs.add(sig)
